@@ -49,24 +49,30 @@ var extraRules = map[string][]string{
 	"writer-must-pass-through":     {"C01", "C05"},
 	"index-safety":                 {"C06", "C07", "C18"},
 	// round-4 rules and further sharing
-	"merge-into-owned":             {"C02", "C11", "C13", "C19"},
-	"recover-only-in-interceptor":  {"C19", "C07"},
-	"unary-always-decodes":         {"C07", "C01"},
-	"put-error-on-success-checked": {"C08", "C01"},
-	"gen-line-starts-literal":      {"C17"},
-	"unary-error-status":           {"C18"},
-	"chain-concat-order":           {"C12"},
-	"chain-parity":                 {"C12"},
-	"nil-skipped":                  {"C12"},
-	"hb-response-ready":            {"C11"},
-	"eof-compare-is":               {"C02", "C06", "C15"},
-	"wrote-flag-before-write":      {"C02", "C05", "C11"},
-	"response-headers-flushed":     {"C11", "C02"},
-	"pool-hygiene":                 {"C06", "C07"},
+	"options-applied-as-given":        {"C16", "C19", "C12"},
+	"chain-keeps-every-non-nil":       {"C16", "C19"},
+	"no-deadline-only-without-header": {"C10", "C07"},
+	"grpc-error-trailers-complete":    {"C02", "C05"},
+	"wire-error-fields-unconditional": {"C02", "C05"},
+	"decompress-nonempty":             {"C01", "C08"},
+	"merge-into-owned":                {"C02", "C11", "C13", "C19"},
+	"recover-only-in-interceptor":     {"C19", "C07"},
+	"unary-always-decodes":            {"C07", "C01"},
+	"put-error-on-success-checked":    {"C08", "C01"},
+	"gen-line-starts-literal":         {"C17"},
+	"unary-error-status":              {"C18"},
+	"chain-concat-order":              {"C12"},
+	"chain-parity":                    {"C12"},
+	"nil-skipped":                     {"C12"},
+	"hb-response-ready":               {"C11"},
+	"eof-compare-is":                  {"C02", "C06", "C15"},
+	"wrote-flag-before-write":         {"C02", "C05", "C11"},
+	"response-headers-flushed":        {"C11", "C02"},
+	"pool-hygiene":                    {"C06", "C07"},
 	// existing rules whose mechanism other properties rest on as well
 	"header-canonical":           {"C01", "C02", "C08", "C10", "C12"},
 	"spec-constants":             {"C01", "C02", "C06", "C08", "C10", "C11"},
-	"percent-agreement":          {"C02"},
+	"percent-agreement":          {"C02", "C07"},
 	"bin-header":                 {"C02", "C05"},
 	"clean-eof-only-at-boundary": {"C01", "C03", "C09"},
 	"code-text-bijection":        {"C02", "C05", "C06"},
